@@ -448,6 +448,12 @@ def script_level(ctx, stats, h, hs):
                       {"kind": "unit", "line": pb["script"], "stderr": pb["stderr"]})
     nm = len(MB_X)
     bad = corr_bad = swallowed = 0
+    untraced = [l for l, a in list(zip(thr_lines, thr)) + list(zip(ser_lines, ser))
+                if a != "<no output>" and any(k not in split_result(a)[1] for k in ("dl", "mtx", "fifo", "sub", "wfail"))]
+    if untraced:
+        bad += len(untraced)
+        ctx.violation("infra:unit-trace-missing", "%d API script runs came back without the complete pool trace (dl, mtx, fifo, sub, wfail): without it a failed "
+                      "callback would go unnoticed" % len(untraced), {"kind": "unit", "line": untraced[0], "serial_line": untraced[0]}, found_input=False)
     variant_seen = {"current": 0, "repaired": 0, "either": 0}
     nfail_scripts = ndet = nmanual = 0
     for wi, w in enumerate(scripts):
